@@ -380,6 +380,14 @@ class BatchEval(Evaluator):
             return self._sink(cn, args, kwargs, self.spec.orig)
         if last == "get_orig_impl":
             return lambda *a, **k: self._sink("orig", a, k, self.spec.orig)
+        if last == "tree_map" and len(args) >= 2 and callable(args[0]):
+            def tm(f_, x):
+                if isinstance(x, (tuple, list)):
+                    return type(x)(tm(f_, y) for y in x)
+                return f_(x)
+            return tm(args[0], args[1])
+        if self.spec.const.get("_opaque_callee") and cn in self.spec.const["_opaque_callee"]:
+            return self._sink(cn, args, {}, {})
         if cn in ("jax.vmap", "vmap"):
             return self._vmap(*args, **kwargs)
         if cn in ("batching.bdim_at_front", "bdim_at_front"):
@@ -539,8 +547,9 @@ def run_rule(idx: Index, fi: FuncInfo, spec: Spec, example_labels: List[Optional
             batched.append(arr(L[:bd] + ("B",) + L[bd:]))
     ev = BatchEval(idx, spec)
     clo = Closure(ev, fi.node, dict(free_env or {}), fi, 0)
+    lead = (Opaque("self"),) if fi.cls is not None and fi.node.args.args and fi.node.args.args[0].arg in ("self", "cls") else ()  # type: ignore[attr-defined]
     try:
-        res = clo(tuple(batched), tuple(bdims), **params)
+        res = clo(*lead, tuple(batched), tuple(bdims), **params)
     except AxisViolation as v:
         return "VIOLATION", str(v)
     except EvalRaise as r:
